@@ -1439,6 +1439,8 @@ def _find_helper(
     kwargs['normalized'] = bool(normalize)
 
     forms = lemmatize(form, pos) if lemmatize else {}
+    # a part of speech proposed without any forms proposes nothing
+    forms = {_pos: _forms for _pos, _forms in forms.items() if _forms}
     # if no lemmatizer or word not covered by lemmatizer, back off to
     # the original form and pos
     if not forms:
